@@ -475,6 +475,7 @@ CHECKS["C13"] = {
         {"test": "TestC13ClientScriptsEnum", "kind": "plain", "shards": 4, "timeout": (300, 3000)},
         {"test": "TestC13ClientScripts", "kind": "rapid", "shards": 4, "checks": (400, 15000), "timeout": (300, 3000)},
         {"test": "TestC13", "kind": "rapid", "shards": 10, "checks": (150, 6000), "timeout": (300, 3000), "gomaxprocs": [1, 2, 4, 16, 2]},
+        {"test": "TestC13RealBacklog", "kind": "plain", "timeout": (400, 3000), "gomaxprocs": [8, 16]},
         {"test": "TestC13Real", "kind": "rapid", "shards": 4, "checks": (6, 150), "timeout": (400, 3000), "gomaxprocs": [4, 16], "shrink": (30, 90)},
     ],
 }
